@@ -905,8 +905,11 @@ def _meta_shape(repo, rep):
             if it[0] is C.IN and rx.in_set(it[1]) == QU:
                 counts["quote"] += 1
                 bad.append("a quote is required")
-    rep.check(not bad and counts["ws"] >= 20 and counts["quote"] >= 8 and
-              counts["sep"] >= 4 and counts["value"] >= 4, "R17.1",
+    if not (counts["ws"] >= 12 and counts["quote"] >= 4 and
+            counts["sep"] >= 2 and counts["value"] >= 2):
+        raise AnalysisError("RE_META: the pattern's parts were not "
+                            "recognised (%s)" % counts)
+    rep.check(not bad, "R17.1",
               U + "RE_META", "shape of the meta pattern: total white-space "
               "classes (%(ws)d), optional quotes (%(quote)d), mandatory "
               "separators (%(sep)d), non-empty values (%(value)d)" % counts,
